@@ -658,6 +658,14 @@ def quantifier_loop_all(items):
     return True
 
 
+def quantifier_loop_values(table, variables):
+    for names in table.values():
+        for name in names:
+            if name not in variables:
+                return None
+    return 'HIGH'
+
+
 def comprehension_negation(items, known):
     return [i for i in items if not (i not in known or i > 5)]
 
@@ -1189,6 +1197,7 @@ CASES = {
     'optional_flag_expression': [({'edges': [1], 'valid': True}, []), ({'edges': []}, []), ({'valid': True}, [])],
     'quantifier_loop': [({'edge_face': 'ef'}, {'ef'}), ({'edge_node': 'en'}, set()), ({}, {'x'})],
     'quantifier_loop_all': [([1, None, 2],), ([1, -1],), ([],)],
+    'quantifier_loop_values': [({'a': ('x', 'y'), 'b': ('z',)}, {'x', 'y', 'z'}), ({'a': ('x', 'q')}, {'x'}), ({}, set())],
     'comprehension_negation': [([1, 2, 7, 9], {1, 7}), ([], set())],
     'expression_walrus': [({'a': 'x', 'b': 'y'}, {'x'}), ({}, {'x'})],
     'generator_helper': [([1, -1, 2],), ([],)],
